@@ -4,7 +4,8 @@ from seqdiff import run_seq
 
 LEVEL = "translation_validation"
 COQ_TARGETS = ("props/C04.vo",)
-THEOREMS = ["C04_covered_records_not_replayed_partial", "C04_uncovered_records_replayed_partial", "C04_covered_example",
+THEOREMS = ["C04_recovery_restores_the_write_invariant", "C04_reads_agree_after_reopen", "C04_reopen_cycles_keep_invariants",
+            "C04_covered_records_not_replayed_partial", "C04_uncovered_records_replayed_partial", "C04_covered_example",
             "C04_reopen_identity_refuted"]
 
 
@@ -13,7 +14,7 @@ def programs(seed, n, nops):
     for i in range(n):
         mode = ["plain", "plain", "sw", "occ"][i % 4]
         # the last tenth of the programs pushes the journal over its rotation threshold (sealed journals take part)
-        g = Gen(seed * 100019 + i, mode=mode, nks=1 + i % 3, configs=["", "", "blob=8", "fifo=4000000000", "blob=1"], sealing=(2 + i % 2 if i >= n - max(16, n // 10) else 0),
+        g = Gen(seed * 100019 + i, mode=mode, nks=1 + i % 3, configs=["", "", "blob=8", "blob=1"], sealing=(2 + i % 2 if i >= n - max(16, n // 10) else 0),
                 weights=dict(reopen=2.5, snap=0, it=0, tx=0, txop=0, gc=0.3, ks=0.3, delks=0, ingest=3, clear=1.5,
                              major=1.5, rotate=3, step=3))
         p = g.program(nops)
